@@ -1380,6 +1380,19 @@ func toFloat64(v interface{}) (float64, error) {
 		return 0, nil
 	}
 
+	// Named number types (type Cents int64) are numbers too; types that print themselves
+	// through a String method (enums, time.Duration) are left alone
+	if _, printsItself := v.(fmt.Stringer); !printsItself {
+		switch rv := reflect.ValueOf(v); rv.Kind() {
+		case reflect.Int, reflect.Int8, reflect.Int16, reflect.Int32, reflect.Int64:
+			return float64(rv.Int()), nil
+		case reflect.Uint, reflect.Uint8, reflect.Uint16, reflect.Uint32, reflect.Uint64:
+			return float64(rv.Uint()), nil
+		case reflect.Float32, reflect.Float64:
+			return rv.Float(), nil
+		}
+	}
+
 	return 0, fmt.Errorf("cannot convert %T to float64", v)
 }
 
